@@ -74,13 +74,25 @@ theorem step_schedPoll_coup (hx : GoodCtx x) (h : Coup x m s as)
 
 /-! ### `finish` -/
 
-theorem step_finish_coup (_hx : GoodCtx x) (h : Coup x m s as) {f : Nat} {ok : Bool}
+theorem step_finish_coup (hx : GoodCtx x) (h : Coup x m s as) {f : Nat} {ok : Bool}
     (hs : step? x.c s (.finish f ok) = some s1) : StepGoal x m s (.finish f ok) s1 as := by
-  obtain ⟨_, _, h3⟩ := step_finish hs
+  obtain ⟨hf1, _, h3⟩ := step_finish hs
   have hev : stepEvents x.c x.control s (.finish f ok) s1 = [.fin f ok] := rfl
   unfold StepGoal
   rw [hev, predRun_single]
-  refine ⟨?_, by rw [predFut_fin_snd]; intro n hn; cases hn⟩
+  refine ⟨?_, ?_⟩
+  swap
+  · -- C07 at the failure: a function ordered after `f` is handed out only after `f` ended ok, and
+    -- `f` is still in flight
+    have hinv := inv0_reachable hx.good h.reach
+    apply predFut_fin_ok
+    intro _ g hg
+    rw [h.inv] at hg
+    cases hrp : reachPlus x.c.D f g with
+    | false => rfl
+    | true =>
+      exact absurd (handout_after_ancestors hx.good h.reach (Or.inr (Or.inl (hinv.invHanded g hg)))
+        (reachPlus_sound hrp)) (hinv.inflNotEnded f hf1).1
   have key : s1.handedOut = s.handedOut ∧ s1.invoked = s.invoked ∧
       s1.endedOk = (if ok then s.endedOk ++ [f] else s.endedOk) ∧
       s1.failed = (if ok then s.failed else s.failed ++ [f]) := by
